@@ -409,4 +409,12 @@ def main(argv=None):
 
 
 if __name__ == "__main__":
-    sys.exit(main())
+    try:
+        rc = main()
+    except SystemExit:
+        raise
+    except BaseException:  # a crash of the harness is never a verdict about the property: exit 3, not 1
+        traceback.print_exc()
+        print("HARNESS-CRASH (no verdict)", file=sys.stderr)
+        rc = 3
+    sys.exit(rc)
